@@ -465,6 +465,8 @@ func c19Xid(r *core.Run) {
 	if xp := w.Func("pkg/remoting/loadbalance", "", "XidLoadBalance"); xp != nil {
 		r.Fn(xp)
 		cmp := false
+		originFollowHelpers = true // the address may be cut out of the xid by a helper returning (address, ok)
+		defer func() { originFollowHelpers = false }()
 		ast.Inspect(xp.Decl.Body, func(n ast.Node) bool {
 			if be, ok := n.(*ast.BinaryExpr); ok && be.Op == token.EQL {
 				a, b := origin(xp, be.X, 4), origin(xp, be.Y, 4)
